@@ -193,22 +193,76 @@ def check(P: Project, R: Report) -> None:
         ok_msg = ".get('message'" in an.origin(msg_arg)
         R.ob("R3", key + " carries the server's message", ok_msg, f"{proc.module.rel}:{node.lineno}", f"message argument `{an.origin(msg_arg)[:120]}` does not derive from error['message']")
     R.ob("R3", "both classes raised", classes_seen == {"RetryableError", "NonRetryableError"}, proc.where, f"classes raised on the error branch: {sorted(classes_seen)}")
-    # the exception base class stores .code
-    base = P.cls(A.MOD_ERRORS, "RetryableError")
-    init = P.lookup_method(base, "__init__")
-    R.need(init is not None, "anchor: no __init__ on the error class hierarchy")
-    stores = False
-    ps = init.positional_params()
-    for n in walk_local(init.node):
-        if isinstance(n, ast.Assign) and any(isinstance(t, ast.Attribute) and t.attr == "code" and isinstance(t.value, ast.Name) and t.value.id == "self" for t in n.targets):
-            stores = isinstance(n.value, ast.Name) and n.value.id in ps and ps.index(n.value.id) == 2
-    R.ob("R3", "exception stores .code from its 2nd argument", stores, init.where, "self.code is not assigned from the code parameter")
-    for other in ("NonRetryableError",):
-        ci = P.cls(A.MOD_ERRORS, other)
-        own = P.maybe_func(A.MOD_ERRORS, f"{other}.__init__")
-        R.ob("R3", f"{other} shares the base constructor", own is None and P.lookup_method(ci, "__init__") is init, ci.module.rel, f"{other} overrides __init__")
-    own = P.maybe_func(A.MOD_ERRORS, "RetryableError.__init__")
-    R.ob("R3", "RetryableError shares the base constructor", own is None, base.module.rel, "RetryableError overrides __init__")
+    # the exception classes: whatever constructor chain each of the two classes resolves to must (a) store .code from the
+    # code argument and (b) be total — an exception *constructor* that can raise for some error shape (say, data that is
+    # not a dict) replaces the classified error by an unrelated TypeError/ValueError
+    from ..paths import is_benign_call
+
+    for cname in ("RetryableError", "NonRetryableError"):
+        ci = P.cls(A.MOD_ERRORS, cname)
+        init = P.lookup_method(ci, "__init__")
+        R.need(init is not None, f"anchor: no __init__ on the hierarchy of {cname}")
+        chain = []
+        cur, cur_ci = init, (init.cls or ci)
+        ps = [x for x in cur.positional_params() if x != "self"]
+        code_name = ps[1] if len(ps) >= 2 else None
+        stores = False
+        fallible = []
+        for _ in range(6):
+            chain.append(cur)
+            R.fn(cur.fq)
+            sup = None
+            # operations under an isinstance() test (statement or conditional expression) are type-guarded: not counted
+            guarded = set()
+            for g in (x for stmt in cur.node.body for x in walk_local(stmt)):
+                if isinstance(g, ast.If) and "isinstance(" in ast.unparse(g.test):
+                    guarded |= {id(y) for b in g.body for y in ast.walk(b)}
+                if isinstance(g, ast.IfExp) and "isinstance(" in ast.unparse(g.test):
+                    guarded |= {id(y) for y in ast.walk(g.body)}
+            for n in (x for stmt in cur.node.body for x in walk_local(stmt)):
+                if id(n) in guarded:
+                    continue
+                if isinstance(n, ast.Assign) and any(isinstance(t, ast.Attribute) and t.attr == "code" and isinstance(t.value, ast.Name) and t.value.id == "self" for t in n.targets):
+                    stores = stores or (code_name is not None and isinstance(n.value, ast.Name) and n.value.id == code_name)
+                if isinstance(n, ast.Call):
+                    nm = call_name(n)
+                    if nm in ("super().__init__",) or nm.startswith("super(") and nm.endswith(".__init__"):
+                        sup = n
+                        continue
+                    if nm == "super" or nm.startswith("super("):
+                        continue
+                    if not is_benign_call(n):
+                        fallible.append(f"{cur.qual} line {n.lineno}: `{ast.unparse(n)[:50]}`")
+                if isinstance(n, ast.Subscript) and isinstance(n.ctx, ast.Load):
+                    fallible.append(f"{cur.qual} line {n.lineno}: `{ast.unparse(n)[:50]}`")
+                if isinstance(n, ast.Raise):
+                    fallible.append(f"{cur.qual} line {n.lineno}: raise")
+            if sup is None:
+                break
+            # follow the chain to the next user-defined constructor, carrying the code parameter's name along
+            parent = None
+            for q, c2 in P.classes.items():
+                if c2.name in [b.split(".")[-1] for b in cur_ci.bases] and c2.module.name == cur_ci.module.name:
+                    parent = c2
+            if parent is None:
+                break
+            nxt = P.lookup_method(parent, "__init__")
+            if nxt is None or nxt is cur:
+                break
+            nps = [x for x in nxt.positional_params() if x != "self"]
+            new_code = None
+            for i, a in enumerate(sup.args):
+                if isinstance(a, ast.Name) and a.id == code_name and i < len(nps):
+                    new_code = nps[i]
+            for k in sup.keywords:
+                if isinstance(k.value, ast.Name) and k.value.id == code_name and k.arg:
+                    new_code = k.arg
+            code_name = new_code
+            cur, cur_ci = nxt, (nxt.cls or parent)
+        R.ob("R3", f"{cname}: exception stores .code from its 2nd argument", stores, init.where, "self.code is not assigned from the code parameter anywhere on the constructor chain " + " → ".join(c.qual for c in chain))
+        R.ob("R3", f"{cname}: exception constructor is total", not fallible, init.where,
+             "the constructor can itself raise for some error shapes, so the caller sees that exception instead of the classified one: " + "; ".join(fallible[:3]),
+             sample=f"R3 {cname}: constructor chain {' → '.join(c.qual for c in chain)} is total")
 
     # ---------------------------------------------------------------- R4
     send = P.func(A.MOD_SEND, "send_message")
